@@ -17,8 +17,8 @@ func init() {
 	mon.RegisterCfg("C03", mon.Config{
 		Rule: "stratum maps: header.Write on random tag->bytes maps (1..280 entries with emphasis on 2^k-1, 2^k, 2^k+1; all length residues mod 4; nil values and keys of length != 4; three scaler types; with/without head), judged by the independent container validator sfntwalk and by header.Read; stratum fonts: complete generated fonts written with Write/WriteTrueTypePDF/WriteOpenTypeCFFPDF, judged by sfntwalk and compared with golang.org/x/image/font/sfnt. distinct = distinct output files (hash)",
 		Assumptions: []string{
-			"a map with no written table is outside the domain (not a font file)",
-			"a 'head' entry shorter than 12 bytes is not a head table and is not generated",
+			"a map with no written table gives a 12-byte container whose header is checked; header.Read refuses such a file on purpose ('no tables'), so the read-back clause is not judged for it",
+			"a 'head' entry shorter than 12 bytes cannot hold the checksum adjustment: it must be copied as it is and nothing may be patched (neither in it nor behind it)",
 			"sfntwalk (own code, written from the OpenType spec) and x/image are correct where they agree",
 		},
 	}, runC03)
@@ -57,6 +57,10 @@ func runC03(c *mon.Ctx) {
 		if hasHead {
 			n-- // the reader accepts at most 280 tables; head counts
 		}
+		if r.IntN(40) == 0 {
+			// nothing to write at all (possibly next to a short head table)
+			n = 0
+		}
 		tables := map[string][]byte{}
 		for len(tables) < n {
 			tag := c03tag(k)
@@ -80,11 +84,16 @@ func runC03(c *mon.Ctx) {
 		}
 		if hasHead {
 			l := 54
-			switch r.IntN(4) {
+			switch r.IntN(5) {
 			case 0:
 				l = 12 + r.IntN(100)
 			case 1:
 				l = 54 + r.IntN(4)
+			case 2:
+				// too short to hold the checksum adjustment (bytes 8..11): "any
+				// lengths including 0" - the table is copied, nothing is patched
+				l = r.IntN(12)
+				k.Class("head-shorter-than-12")
 			}
 			b := make([]byte, l)
 			for i := range b {
@@ -213,7 +222,7 @@ func runC03(c *mon.Ctx) {
 		}
 	})
 	c03fonts(c)
-	c.Require("tables-share-one-buffer", "with-head", "without-head", "nil-entries", "bad-length-keys", "len-mod4=0", "len-mod4=1", "len-mod4=2", "len-mod4=3",
+	c.Require("head-shorter-than-12", "ntables=0", "tables-share-one-buffer", "with-head", "without-head", "nil-entries", "bad-length-keys", "len-mod4=0", "len-mod4=1", "len-mod4=2", "len-mod4=3",
 		"ntables=1", "ntables=7", "ntables=8", "ntables=9", "ntables=16", "ntables=17", "ntables=31", "ntables=32", "ntables=33")
 }
 
@@ -265,6 +274,13 @@ func checkContainer(k *mon.Case, out []byte, scaler uint32, want map[string][]by
 	rd := bytes.NewReader(out)
 	if k.Guard("header.Read", func() { info, err = header.Read(rd) }) {
 		return false
+	}
+	if err != nil && len(want) == 0 {
+		// a container without any table is written (12 bytes, checked above);
+		// the reader refuses it on purpose ("no tables"): there is nothing
+		// whose return could be judged
+		k.Class("ntables=0:reader-refuses")
+		return ok
 	}
 	if err != nil {
 		k.Fail("mismatch", "header.Read-rejects-own-output", "header.Read: %v\n%s", err, desc())
